@@ -28,7 +28,8 @@ struct TProbe { int64_t val; pthread_t owner; int64_t canary; int64_t oidx; };
 static void TProbe_New(var self, var args) { struct TProbe* p = self; p->val = c_int(get(args, $I(0))); p->owner = pthread_self(); p->canary = 0x7470726f6265LL; atomic_fetch_add(&tprobe_live, 1);
   p->oidx = my_idx; if (my_idx >= 0) atomic_fetch_add(&live_by[my_idx], 1);
   if (!pthread_equal(p->owner, main_thread)) atomic_fetch_add(&tprobe_child_live, 1); }
-static void TProbe_Del(var self) { struct TProbe* p = self; if (!pthread_equal(p->owner, pthread_self()) || p->canary != 0x7470726f6265LL) atomic_fetch_add(&foreign_retire, 1); if (p->val == SLOW_MARK) usleep(300);          /* a finaliser that takes its time: teardown of a finished thread lasts a while */
+static void TProbe_Del(var self) { struct TProbe* p = self;
+  if (p->val == SLOW_MARK) { volatile int guarded = 0; try { guarded = 1; } catch (e) { guarded = 2; } (void)guarded; }      /* a finaliser that uses a try block (also while its thread is torn down) */ if (!pthread_equal(p->owner, pthread_self()) || p->canary != 0x7470726f6265LL) atomic_fetch_add(&foreign_retire, 1); if (p->val == SLOW_MARK) usleep(300);          /* a finaliser that takes its time: teardown of a finished thread lasts a while */
   if (p->canary == 0x7470726f6265LL && p->oidx >= 0) atomic_fetch_sub(&live_by[p->oidx], 1);
   if (p->canary == 0x7470726f6265LL && !pthread_equal(p->owner, main_thread)) atomic_fetch_sub(&tprobe_child_live, 1);
   p->canary = 0; atomic_fetch_sub(&tprobe_live, 1); }
